@@ -9,6 +9,7 @@ import (
 	"net/http"
 	"reflect"
 	"strconv"
+	"strings"
 	"sync"
 	"time"
 
@@ -135,6 +136,11 @@ type faultConn struct {
 	cutAfter int64 // cut the connection after this many client->server bytes (0 = never)
 	sentC2S  int64
 	isCut    bool
+	// cutAfterHeader: cut after this many client->server bytes *following* the first HTTP request header
+	// (i.e. inside the WebSocket frames that follow the upgrade request); 0 = never
+	cutAfterHeader int64
+	headerEnd      int64 // offset just after the first "\r\n\r\n" (0 = not seen yet)
+	tail           []byte
 }
 
 func (c *faultConn) setBlackhole(c2s, s2c bool) {
@@ -157,6 +163,23 @@ func (c *faultConn) Write(p []byte) (int, error) {
 	c.mu.Unlock()
 	if hole {
 		return len(p), nil
+	}
+	if c.cutAfterHeader > 0 {
+		c.mu.Lock()
+		if c.headerEnd == 0 {
+			buf := append(append([]byte(nil), c.tail...), p...)
+			if i := strings.Index(string(buf), "\r\n\r\n"); i >= 0 {
+				c.headerEnd = sent - int64(len(c.tail)) + int64(i) + 4
+			} else if len(buf) > 3 {
+				c.tail = buf[len(buf)-3:]
+			} else {
+				c.tail = buf
+			}
+		}
+		if c.headerEnd > 0 {
+			cutAfter = c.headerEnd + c.cutAfterHeader
+		}
+		c.mu.Unlock()
 	}
 	if cutAfter > 0 && sent+int64(len(p)) >= cutAfter {
 		k := cutAfter - sent
